@@ -3,3 +3,4 @@ import PysamlModel.Props.C02
 #print axioms C02.C02_covered_partial_b
 #print axioms C02.C02_counterexample
 #print axioms Xsw.XNode.beq_sound
+#print axioms Xsw.registerIds_resolves
